@@ -11,6 +11,7 @@ mod rng;
 mod splitneutral;
 mod summary;
 mod symbase;
+mod questrade;
 
 use std::io::Write;
 
@@ -186,6 +187,50 @@ fn main() {
                 if pages::replay(&c, &mut docs, &mut s) {
                     w.write_all(s.as_bytes()).unwrap();
                     n += 1;
+                }
+            }
+            if n == 0 {
+                eprintln!("no replayable case on stdin");
+                std::process::exit(2);
+            }
+        }
+        "questrade" => {
+            let scratch = questrade::Scratch::new();
+            // minimised past failures first (corpus/C18/*.case next to the harness crate)
+            for s in questrade::corpus_cases(&scratch) {
+                w.write_all(s.as_bytes()).unwrap();
+            }
+            // Rng::new(seed) is affine in the seed (streams of consecutive seeds overlap, shifted
+            // by one draw); start from a mixed state instead so that seeds are independent.
+            let mut r = rng::Rng(rng::Rng::new(seed ^ 0x5154).next());
+            for i in 0..count {
+                let mut cr = r.fork();
+                let c = questrade::gen_case(&mut cr);
+                let mut s = String::new();
+                questrade::run_case(&format!("Q{}-{}", seed, i), &c, &scratch, &mut s);
+                w.write_all(s.as_bytes()).unwrap();
+            }
+        }
+        "questrade-replay" => {
+            let scratch = questrade::Scratch::new();
+            let mut buf = String::new();
+            std::io::Read::read_to_string(&mut std::io::stdin(), &mut buf).unwrap();
+            let mut cur: Vec<String> = Vec::new();
+            let mut n = 0;
+            for l in buf.lines() {
+                if l.starts_with("case ") {
+                    cur = vec![l.to_string()];
+                } else if l == "end" {
+                    if let Some(c) = questrade::parse_case(&cur) {
+                        let id = cur[0].split_whitespace().nth(1).unwrap_or("R").to_string();
+                        let mut s = String::new();
+                        questrade::run_case(&id, &c, &scratch, &mut s);
+                        w.write_all(s.as_bytes()).unwrap();
+                        n += 1;
+                    }
+                    cur.clear();
+                } else if !cur.is_empty() {
+                    cur.push(l.to_string());
                 }
             }
             if n == 0 {
